@@ -285,9 +285,9 @@ def run(ctx, rep):
                       "no closed chunk is retained)`: %s" % (detail if rv else "unresolved"), where=g.where(g.entry))
 
     # ---------------- R11.6 -------------------------------------------------------------
-    rep.rule("R11.6", "= R03.4 / R04.8: bytes go to the file whose name is their offset")
+    rep.rule("R11.6", "= R03.4 / R04.2 / R04.8: every batch element is written completely (write_all) to the file whose name is its offset")
     c03.run(ctx, c03._Filter(rep, keep=("R03.4",), rename="R11.6/"))
-    c04.run(ctx, c03._Filter(rep, keep=("R04.8",), rename="R11.6/"))
+    c04.run(ctx, c03._Filter(rep, keep=("R04.2", "R04.8"), rename="R11.6/"))
 
 
 def _rotated_on_path(P, seen, k, crs):
